@@ -22,6 +22,7 @@ type MOp struct {
 	Kind string `json:"kind"` // acquire release squat unsquat
 	Name int    `json:"name"`
 	Port int    `json:"port"` // offset into the allow range; special values below
+	Late bool   `json:"late,omitempty"` // acquire: the caller binds the granted port only after the NEXT operation (two registrations in flight at once: the port manager grants, the proxy listens later)
 }
 
 type MCase struct {
@@ -46,6 +47,7 @@ func genM(t *rapid.T) MCase {
 		switch k {
 		case "acquire":
 			op.Port = rapid.SampledFrom([]int{portZero, portZero, portZero, 0, 1, 2, 3, 4, 5, portOutside, portNegative, portHuge}).Draw(t, "port")
+			op.Late = rapid.IntRange(0, 3).Draw(t, "late") == 0
 		default:
 			op.Port = rapid.IntRange(0, 5).Draw(t, "port")
 		}
@@ -76,6 +78,7 @@ func runM(c MCase) error {
 	holder := map[int]closer{}   // the caller's own bind, as TCPProxy.Run / UDPProxy.Run do
 	squat := map[int]closer{}    // ports bound by "another process"
 	last := map[string]int{}     // name -> last port acquired
+	pending := map[int]int{}     // granted port not yet bound by its owner -> step at which it was granted
 	defer func() {
 		for _, h := range holder {
 			h.Close()
@@ -95,6 +98,16 @@ func runM(c MCase) error {
 	}
 	for i, op := range c.Ops {
 		name := fmt.Sprintf("n%d", op.Name)
+		for p, at := range pending {
+			if at < i-1 {
+				h, be := bind(c.Proto, p)
+				if be != nil {
+					return fmt.Errorf("step %d: port %d granted to %s at step %d cannot be bound by its owner: %v", i, p, owned[p], at, be)
+				}
+				holder[p] = h
+				delete(pending, p)
+			}
+		}
 		switch op.Kind {
 		case "acquire":
 			req := 0
@@ -181,19 +194,26 @@ func runM(c MCase) error {
 			if e == nil {
 				owned[got] = name
 				last[name] = got
-				h, be := bind(c.Proto, got)
-				if be != nil {
-					return fmt.Errorf("step %d: granted port %d cannot be bound: %v", i, got, be)
+				if op.Late {
+					pending[got] = i
+				} else {
+					h, be := bind(c.Proto, got)
+					if be != nil {
+						return fmt.Errorf("step %d: granted port %d cannot be bound: %v", i, got, be)
+					}
+					holder[got] = h
 				}
-				holder[got] = h
 			}
 		case "release":
 			p := base + op.Port
 			if _, o := owned[p]; !o {
 				continue
 			}
-			holder[p].Close()
+			if h := holder[p]; h != nil {
+				h.Close()
+			}
 			delete(holder, p)
+			delete(pending, p)
 			pm.Release(p)
 			delete(owned, p)
 		case "squat":
